@@ -367,3 +367,58 @@ REG.add(Contract(MMOD, "Model.__exit__", "C03", _x, [
     Case("innermost_context", requires=lambda E: _stack(E.s0, E["self"])[0] > 0, ensures=_exit_post),
     Case("no_context", requires=lambda E: _stack(E.s0, E["self"])[0] <= 0, raises="IndexError"),
 ], modifies=_exit_mod, key="Model.__exit__", axioms=lambda E: run_axioms()))
+
+
+# ================================================================ add / remove constraints and variables (util/solver.py)
+MSOLV = "cobra/util/solver.py"
+
+
+def _model_with_solver():
+    return TObj("Model", {"_contexts": TList("ref:HistoryManager"), "_solver": TObj("Solver", {})})
+
+
+def solver_call_hook(eng, st, recv, name, pos, kw):
+    """optlang solver.add / solver.remove: recorded in the ghost trace (assumed: remove(what) is the inverse of add(what))"""
+    if isinstance(recv, VObj) and recv.cls == "Solver" and name in ("add", "remove"):
+        tr = st.ghost.get("trace", ())
+        return [("ok", st.setghost("trace", tr + ((name, tuple(pos), tuple(sorted(kw))),)), NONE)]
+    return None
+
+
+HOOKS_CONS = dict(HOOKS, call_method=solver_call_hook)
+REG.inline.add("Model.solver@getter")
+REG.external_classes = getattr(REG, "external_classes", set()) | {"Solver"}
+
+
+def _cv_ctx(E):
+    return _gc_has(Env({"obj": E["model"]}, E.s0, eng=E.eng))
+
+
+def _cv_post(do, undo, with_ctx):
+    def post(E):
+        tr = _trace(E)
+        what = E["what"]
+        if with_ctx:
+            if len(tr) != 2:
+                return z3.BoolVal(False)
+            first, second = tr
+            n, e = _ctxs(E.s0, E["model"])
+            ok = (first[0] == do and len(first[1]) == 1 and first[1][0] is what and second[0] == "push"
+                  and isinstance(second[2], VFunc) and second[2].kind == "partial"
+                  and isinstance(second[2].a, VFunc) and second[2].a.kind == "bound" and second[2].a.b == undo
+                  and isinstance(second[2].a.a, VObj) and second[2].a.a.cls == "Solver"
+                  and len(second[2].b) == 1 and second[2].b[0] is what)
+            return z3.And(z3.BoolVal(bool(ok)), second[1].t == e[n - 1]) if ok else z3.BoolVal(False)
+        ok = len(tr) == 1 and tr[0][0] == do and len(tr[0][1]) == 1 and tr[0][1][0] is what
+        return z3.BoolVal(bool(ok))
+    return post
+
+
+for _fn, _do, _undo in (("add_cons_vars_to_problem", "add", "remove"), ("remove_cons_vars_from_problem", "remove", "add")):
+    REG.add(Contract(MSOLV, _fn, "C03", [("model", _model_with_solver()), ("what", TRef("Undo")), ("**kwargs", TConc({"__kwargs__": True}))], [
+        Case("no_context", requires=lambda E: z3.Not(_cv_ctx(E)), ensures=_cv_post(_do, _undo, False)),
+        Case("in_context", requires=_cv_ctx, ensures=_cv_post(_do, _undo, True)),
+    ], pre=lambda E: _ctx_nonnull(Env({"obj": E["model"]}, E.s0, eng=E.eng)), key=_fn,
+        modifies=lambda E: [("ghost", "trace", lambda st: ())]))
+
+ALL_HOOKS = chain_hooks(HOOKS, {"call_method": reset_on_ref}, {"call_method": solver_call_hook})
